@@ -80,6 +80,14 @@ Theorem C10_decorated_indices : forall n bs P, 1 <= eff_bs n bs -> is_perm_of_ra
     Forall (fun p => fst p = fst (snd p) /\ fst (snd (snd p)) = fst p /\ snd (snd (snd p)) = fst p) Y.
 Proof. exact gen_decorated_indices. Qed.
 
+(* while step k of an epoch of fit runs on a decorated model, the indices the decorated _compute_grads reads from
+   `_batchify.indices` are the true indices of the rows of that step's X_batch (fit advances the generator one
+   batch per step; exhausting it first would leave the last batch's indices there) *)
+Theorem C10_decorated_indices_fresh : forall n bs P, 1 <= eff_bs n bs -> is_perm_of_range n (P (Z.of_nat n)) ->
+  code_decorated_visible batch_rules deco_rules fit_rules n bs P
+  = Some (map (fun b => (b, b)) (batches (eff_bs n bs) (P (Z.of_nat n)))).
+Proof. exact gen_decorated_visible. Qed.
+
 (* nonparametric models always see the full data, once (CategoricalModel._batchify is matched literally by the
    translator; there is no hole to regenerate) *)
 Theorem C10_categorical_full : forall n, concat (cat_epoch n) = seq 0 n /\ length (cat_epoch n) = 1.
@@ -132,6 +140,7 @@ Print Assumptions C10_steps.
 Print Assumptions C10_n_iter.
 Print Assumptions C10_path_epoch.
 Print Assumptions C10_decorated_indices.
+Print Assumptions C10_decorated_indices_fresh.
 Print Assumptions C10_categorical_full.
 Print Assumptions C10_val_blocks.
 Print Assumptions C10_val_score_weighted_mean.
